@@ -336,7 +336,20 @@ def drv_helpers(ctx, k, rng):
         ctx.sample({"driver": "helpers", "svi_k": kk, "svi_out": got})
 
 
+def drv_witness(ctx, k, rng):
+    """Fixed witness of the known finding clamp.max_mode_mixed_scalar_tensor_typeerror."""
+    x = torch.tensor([1.0, 2.0, 3.0])
+    mon = "clamp.piecewise"
+    ctx.seen(mon)
+    try:
+        out = F.clamp(x, 0.0, torch.tensor([1.5, 1.5, 1.5]), inverted_output="max")
+        judge_clamp(ctx, mon, x, 0.0, torch.tensor([1.5, 1.5, 1.5]), 0.0, "max", out, ("witness",))
+    except TypeError as ex:
+        ctx.violation(mon, "clamp.max_mode_mixed_scalar_tensor_typeerror", f"clamp(x, 0.0, tensor, inverted_output='max') raised TypeError: {str(ex)[:80]}")
+
+
 DRIVERS = [
+    ("witness", 1, 1, drv_witness),
     ("clamp", 500, 30000, drv_clamp),
     ("ww", 120, 5000, drv_ww),
     ("helpers", 150, 5000, drv_helpers),
